@@ -248,6 +248,12 @@ pub fn corpus(deep: bool) -> Vec<String> {
               "exists X Y$s N$i (X = Y$s and X = N$i and p(X))", "exists N$i Y$s (N$i = 1 and Y$s = a and q(N$i, Y$s))", "exists Y$s (Y$s = X and Y$s = Z and p(Y$s))"] {
         out.push(t.to_string());
     }
+    // comparison chains next to plain equations that share a term with them (a chain `V = t < u` is not a definition of V)
+    for t in ["exists X$i Y$i (X$i = Z and Y$i = Z < 3 and p(Y$i))", "exists X Y (X = Z and Y = Z != 1 and q(X, Y))", "exists Y$i (Y$i = Z < 1 and p(Y$i))", "forall X$i Y$i (X$i = Z and Y$i = Z <= 0 -> q(X$i, Y$i))",
+              "exists X (X = Y = 1 and p(X))", "exists X$i Y$i (X$i = N$i + 1 and Y$i = N$i + 1 > 1 and q(X$i, Y$i))", "exists X Y (Y = Z < a and X = Z and q(Y, X))", "exists X Y (X = Z and Z = Y < 1 and q(X, Y))",
+              "exists X$i Y$i (X$i = Z and Y$i = Z = 0 and p(X$i))", "forall X Y (X = Z and Y = Z > 0 -> p(Y)) and p(Z)", "exists X$s Y$s (X$s = Z and Y$s = Z != a and q(X$s, Y$s))", "exists X Y (X = 1 and Y = 1 < X and q(X, Y))"] {
+        out.push(t.to_string());
+    }
     // long comparison chains: one rewrite makes the formula grow before the others shrink it again
     for t in ["exists N$i (0 < N$i < M$i < K$i < 10 and N$i = 1)", "forall X (p(X) -> X = X = X = X = X = X)", "X = X = X = X", "1 < 2 < 3 < 4 < 5 and p and p", "exists X (X = Y = Y = Y = Y and p(X))", "0 <= N$i <= N$i <= N$i <= 2 and (p or p)",
               "not 1 < 2 < 3 < 4 < 5 < 6 < 7", "forall N$i (p(N$i) and 0 < N$i < N$i + 1 < N$i + 2 < 5 -> q(N$i) and #true)", "a = a = a = a = a <-> (p <-> p)", "exists Z (Z = X and 0 <= Z <= Z <= Z <= 1 and p(Z) and #true)"] {
@@ -410,6 +416,11 @@ pub fn check_gamma(deep: bool, stats: &mut SimpStats, fails: &mut Vec<Failure>) 
     for t in &corpus {
         if let Ok(f) = fol::Formula::from_str(t) { if quantified_variables(&f) > 12 { continue; } if exactly_evaluable(&f) { inputs.push((t.clone(), f)); } else { stats.skipped_inexact += 1; } }
     }
+    // predicates whose names begin with the letters gamma puts in front of a name: the copies of p and of hp stay apart
+    for t in ["hp -> p", "p and not hp", "tp or not p", "hp(1) <-> p(1)", "forall X (hp(X) -> p(X))", "exists X (tq(X) and not q(X))", "hhp -> (hp -> p)", "t and not h", "not not tp <- p", "thp or not htp", "p -> tp", "hq(a) or not q(a)",
+              "forall X (p(X) <-> not tp(X))", "exists X (hp(X) and tp(X) and not p(X))", "h -> ht", "not (hp and not p)", "(hp <-> p) -> tq(0)", "forall X (q(X) or tq(X) -> exists Y (hp(Y) and not p(Y)))"] {
+        if let Ok(f) = fol::Formula::from_str(t) { inputs.push((t.to_string(), f)); } else { fails.push(Failure { property: "harness", input: t.to_string(), detail: "corpus formula does not parse".into() }); }
+    }
     stats.formulas = inputs.len();
     let text: String = inputs.iter().map(|(t, _)| format!("{t}.\n")).collect();
     let what = "anthem translate --with gamma".to_string();
@@ -420,7 +431,9 @@ pub fn check_gamma(deep: bool, stats: &mut SimpStats, fails: &mut Vec<Failure>) 
     if outputs.len() != inputs.len() { fails.push(Failure { property: "C05", input: what, detail: format!("{} formulas in, {} formulas out", inputs.len(), outputs.len()) }); return; }
     let dom = Domain::new(-3, 4, &["a", "b"]);
     let n_interp = if deep { 60 } else { 16 };
-    let uni = universe();
+    let mut uni = universe();
+    for n in ["hp", "tp", "hhp", "thp", "htp", "h", "t", "ht"] { uni.push((n.into(), vec![])); }
+    for n in ["hp", "tp", "tq", "hq"] { for v in [Val::Int(0), Val::Int(1), Val::Sym("a".into())] { uni.push((n.into(), vec![v])); } }
     let results: Vec<Option<Failure>> = crate::par_map(&(0..inputs.len()).collect::<Vec<_>>(), |i| {
         let (src, fin) = &inputs[*i];
         let fout = match &outputs[*i] { Some(f) => f, None => return Some(Failure { property: "skip", input: String::new(), detail: String::new() }) };
